@@ -18,7 +18,7 @@ Run(parent, s, evs, i) ==
        \cup Run(parent, StepApply(s, ev), evs, i + 1)
 Failing(e) ==
      (IF \E j \in 1..Len(e.threads) : e.threads[j].outcome # "ok" THEN {<<0, "thread_raised">>} ELSE {})
-  \cup (IF \E j \in 1..Len(e.threads) : e.threads[j].outcome = "ok" /\ (e.threads[j].desc # e.eager.desc \/ e.threads[j].inst # e.eager.inst)
+  \cup (IF \E j \in 1..Len(e.threads) : e.threads[j].outcome = "ok" /\ (e.threads[j].desc # e.threads[j].want_desc \/ e.threads[j].inst # e.threads[j].want_inst)
         THEN {<<0, "observation_differs_from_eager">>} ELSE {})
   \cup (IF e.final.desc # e.eager.desc \/ e.final.inst # e.eager.inst THEN {<<0, "final_class_differs_from_eager">>} ELSE {})
   \cup (IF e.deadlock THEN {<<0, "deadlock">>} ELSE {})
